@@ -8,7 +8,7 @@ From Coq Require Import NArith ZArith List String Bool.
 From SV Require Import KV.KvBase KV.KvLex KV.KvParse KV.KvSym KV.KvRoundtrip.
 From SV Require Import Fmt.VmfText Fmt.VmfTextProofs Fmt.VmfBlocks Fmt.VmfBlocksProofs Fmt.VmfFields Fmt.VmfFieldsProofs.
 From SV Require Import Fmt.VmfNum Fmt.VmfNumProofs Fmt.VmfGuard Fmt.VmfGuardProofs.
-From SV Require Import Fmt.VmfLite Fmt.VmfLiteProofs Fmt.VmfFlags Fmt.VmfFlagsProofs Fmt.VmfTok Fmt.VmfTokProofs.
+From SV Require Import Fmt.VmfLite Fmt.VmfLiteProofs Fmt.VmfFlags Fmt.VmfFlagsProofs Fmt.VmfTok Fmt.VmfTokProofs Fmt.VmfPlane Fmt.VmfPlaneProofs.
 From SV Require Import Gen.VmfTemplates_gen Gen.VmfKeys_gen Gen.VmfDispSizes_gen Gen.VmfOrder_gen Gen.VmfProg_gen Gen.VmfFieldsCfg_gen Gen.VmfNumFmt_gen Gen.VmfLite_gen Gen.VmfFlags_gen.
 Import ListNotations.
 
@@ -299,3 +299,12 @@ Theorem c06_uvaxis_text_roundtrip : forall a b c d e, forallb tok_ok [a; b; c; d
 Proof. exact uv_text_roundtrip. Qed.
 Theorem c06_vec_token_with_space_refuted : parse_vec (vec_text [49; 32; 50] [51] [52])%N <> Some ([49; 32; 50], [51], [52])%N.
 Proof. exact vec_token_with_space_refuted. Qed.
+
+(** 13. The plane triple (round 3).  "(v1) (v2) (v3)" with three texts free of parentheses is taken apart by
+    value[1:-1].split(") (") into the three texts (each then goes through parse_vec_str, section 12).  Tied by
+    correspondence with Side.parse / Side.export on every run. *)
+Theorem c06_plane_text_roundtrip : forall a b c, no_paren a = true -> no_paren b = true -> no_paren c = true ->
+  plane_parse (plane_text a b c) = Some (a, b, c).
+Proof. exact plane_text_roundtrip. Qed.
+Theorem c06_plane_paren_in_part_refuted : plane_parse (plane_text [49; 41; 32; 40; 50] [51] [52])%N = None.
+Proof. exact plane_paren_in_part_refuted. Qed.
